@@ -2053,7 +2053,7 @@ def check_implied(context, expr, decls):
         expr  - implied attribute value
         decls - list of Declarations
     """
-    node = declast.ExprParser(expr).expression()
+    node = declast.check_expr(expr)
     visitor = CheckImplied(context, expr, decls)
     return visitor.visit(node)
 
